@@ -325,7 +325,7 @@ func report(o checkOpts, eng *Engine, x *Explorer, hs []*Harness, seed int64, st
 			}
 			if !ok {
 				inconclusive++
-				fmt.Printf("INCONCLUSIVE harness=%s assert=%s reason=counterexample did not reproduce in concrete re-execution (%s)\n", h.name, v.Label, why)
+				fmt.Printf("INCONCLUSIVE harness=%s assert=%s facts=[%s] reason=counterexample did not reproduce in concrete re-execution (%s)\n", h.name, v.Label, factsKey(v.Facts), why)
 				continue
 			}
 			if v.Known != "" {
